@@ -30,6 +30,10 @@ fn main() {
         std::process::exit(64);
     }
     let cmd = args[1].as_str();
+    if cmd == "seed-corpus" {
+        seed_corpus(&args[2]);
+        return;
+    }
     let id = args[2].as_str();
     let Some(prop) = props::by_id(id) else {
         eprintln!("unknown property {}", id);
@@ -67,4 +71,54 @@ fn main() {
             std::process::exit(64);
         }
     }
+}
+
+/// Write seed inputs for the c12_decode fuzz target: reference encodings of hand-picked
+/// records and every record of the repository's compatibility chunk files.
+fn seed_corpus(dir: &str) {
+    use model::MState;
+    use model::Rec;
+    std::fs::create_dir_all(dir).unwrap();
+    let st = MState { vote: Some((1, 2)), last: Some((2, 3)), committed: Some((4, 5)), purged: Some((6, 7)), user_data: Some("hello".into()) };
+    let recs = vec![
+        Rec::Vote((1, 2)),
+        Rec::Vote((u64::MAX, 0)),
+        Rec::Append((1, 2), "hello".into()),
+        Rec::Append((3, 4), String::new()),
+        Rec::Append((1 << 40, 7), "\u{e9}\u{4e2d}".into()),
+        Rec::Commit((1, 2)),
+        Rec::TruncateAfter(Some((1, 2))),
+        Rec::TruncateAfter(None),
+        Rec::PurgeUpto((1, 2)),
+        Rec::State(st.clone()),
+        Rec::State(MState::default()),
+        Rec::State(MState { user_data: Some(String::new()), ..MState::default() }),
+        Rec::State(MState { vote: None, last: Some((9, 9)), committed: None, purged: Some((1, 1)), user_data: None }),
+    ];
+    let mut n = 0;
+    for r in &recs {
+        std::fs::write(format!("{}/seed-{:02}", dir, n), refcodec::encode(r)).unwrap();
+        n += 1;
+    }
+    // two records back to back, and a torn one
+    let mut two = refcodec::encode(&recs[0]);
+    two.extend(refcodec::encode(&recs[2]));
+    std::fs::write(format!("{}/seed-{:02}", dir, n), &two).unwrap();
+    n += 1;
+    std::fs::write(format!("{}/seed-{:02}", dir, n), &two[..two.len() - 3]).unwrap();
+    n += 1;
+    if let Ok(rd) = std::fs::read_dir("/repo/tests/compat/0.2.6/raft-log") {
+        let mut paths: Vec<_> = rd.flatten().map(|e| e.path()).filter(|p| p.extension().map(|e| e == "wal").unwrap_or(false)).collect();
+        paths.sort();
+        for p in paths {
+            let d = std::fs::read(&p).unwrap();
+            let parsed = refcodec::parse_chunk(&d);
+            let b = parsed.boundaries();
+            for w in b.windows(2) {
+                std::fs::write(format!("{}/compat-{:02}", dir, n), &d[w[0]..w[1]]).unwrap();
+                n += 1;
+            }
+        }
+    }
+    println!("wrote {} seeds to {}", n, dir);
 }
